@@ -278,6 +278,9 @@ class ListingBase(Machine):
                 vs = [v for v in vs if F.fread(v[1]) != 0.0] or vs
             if not vs:
                 continue
+            signv = [v for v in vs if v[0] in ('negative', 'positive')]
+            if signv and rng.random() < 0.3:
+                vs = signv        # a sign in the blank before the number moves the field start
             kd, new, sh = vs[rng.randrange(len(vs))]
             a = L.offset + col - sh
             if bytes(data[a:a + len(new)]).decode('latin-1') != (' ' * sh + tok):
@@ -489,7 +492,8 @@ class NavMachine(ListingBase):
             self.guarded(seti, what)
             expect = i % n
         elif kind in ('TIME', 'STEP'):
-            arr = lst.fulltimes if kind == 'TIME' else lst.fullsteps
+            # (plain Python numbers: the oracle must not inherit the reader's array type)
+            arr = np.array([float(x) for x in (lst.fulltimes if kind == 'TIME' else lst.fullsteps)])
             j = ch[0] % n
             mode = ch[1] % 5
             if mode == 0 or n == 1 and mode in (1, 2):
